@@ -34,11 +34,11 @@ KEY_GROUPS = {
 }
 
 MAP_OPS = ['map:put', 'map:put', 'map:remove', 'map:merge', 'map:merge', 'map:entry', 'map-ctor', 'map:get',
-           'map:contains', 'map:size', 'map:keys', 'map-call', 'map-lookup-all', 'map-lookup']
+           'map:contains', 'map:size', 'map:keys', 'map-call', 'map-lookup-all', 'map-lookup', 'map-lookup', 'nest-map-arr']
 ARRAY_OPS = ['sq-ctor', 'curly-ctor', 'array:put', 'array:append', 'array:append', 'array:insert-before',
              'array:remove', 'array:subarray', 'array:head', 'array:tail', 'array:reverse', 'array:join',
-             'array:flatten', 'array:get', 'array:size', 'array-call', 'array-lookup-all', 'array-lookup',
-             'let-alias-append', 'let-alias-put']
+             'array:flatten', 'array:get', 'array:size', 'array-call', 'array-lookup-all', 'array-lookup', 'array-lookup',
+             'let-alias-append', 'let-alias-put', 'nest-arr-map', 'nest-arr-arr']
 DUPS = ['use-first', 'use-last', 'combine', 'reject', 'use-any', None]
 
 
@@ -153,6 +153,18 @@ def expr_and_model(op, pool, template=False):
         return '%s(%s)' % (r[0], r[1]), lambda: _call(v(0), v(1))
     if name == 'array-lookup':
         return '%s?(%s)' % (r[0], r[1]), lambda: _lookup(v(0), v(1))
+    if name == 'nest-arr-map':
+        if op.get('form') == 1:
+            return "[map{'v': %s}, %s]?1?v" % (r[0], r[1]), lambda: M.norm(v(0))
+        if op.get('form') == 2:
+            return "[map{'v': %s, 'w': 1}, 2, 'x']?1?v" % r[0], lambda: M.norm(v(0))
+        return "([map{'v': %s}]?1?v, %s)" % (r[0], r[1]), lambda: M.norm([v(0), v(1)])
+    if name == 'nest-arr-arr':
+        return "[[%s], map{'k': %s}]" % (r[0], r[1]), \
+            lambda: M.array_new([M.array_new([v(0)]), M.map_new([(['str', 'k'], v(1))])])
+    if name == 'nest-map-arr':
+        return "map{'k': [%s], 'n': %s}" % (r[0], r[1]), \
+            lambda: M.map_new([(['str', 'k'], M.array_new([v(0)])), (['str', 'n'], v(1))])
     if name == 'let-alias-append':
         return 'let $a := %s return (array:append($a, %s), $a)' % (r[0], r[1]), \
             lambda: M.norm([M.array_append(v(0), v(1)), M.require('array', v(0))])
@@ -250,11 +262,15 @@ def gen_case(rng, tier):
         want_map = rng.random() < 0.5
         name = rng.choice(MAP_OPS if want_map else ARRAY_OPS)
         op = {'name': name}
-        if name.startswith('map') and name not in ('map:entry', 'map-ctor'):
+        if name.startswith('nest-'):
+            pass
+        elif name.startswith('map') and name not in ('map:entry', 'map-ctor'):
             m = pick('map')
             if m is None:
                 name = op['name'] = 'map-ctor'
-        if (name.startswith('array') or name.startswith('let-')) and name not in ():
+        if name.startswith('nest-'):
+            pass
+        elif (name.startswith('array') or name.startswith('let-')) and name not in ():
             a = pick('array')
             if a is None:
                 name = op['name'] = 'sq-ctor'
@@ -273,6 +289,12 @@ def gen_case(rng, tier):
             op['args'] = []
             for _i in range(k):
                 op['args'] += [atom(), value()]
+        elif name in ('nest-arr-map', 'nest-arr-arr', 'nest-map-arr'):
+            op['args'] = [value(), value()]
+            op['form'] = rng.choice([0, 0, 1, 2])
+        elif name == 'map-lookup' and rng.random() < 0.5:
+            # the lookup operator maps over every item of its left operand
+            op['args'] = [{'seq': [m] + [pick('map') or m for _i in range(rng.choice([1, 2]))]}, atom()]
         elif name in ('map:get', 'map:contains', 'map-call', 'map-lookup'):
             op['args'] = [m, atom()]
         elif name in ('map:size', 'map:keys', 'map-lookup-all'):
@@ -301,6 +323,8 @@ def gen_case(rng, tier):
             op['args'] = [{'seq': [a] + [pick('array') or a for _i in range(rng.choice([0, 1, 2]))]}]
         elif name == 'array:flatten':
             op['args'] = [{'seq': [a, value()]}]
+        elif name == 'array-lookup' and rng.random() < 0.5:
+            op['args'] = [{'seq': [a] + [pick('array') or a for _i in range(rng.choice([1, 2]))]}, {'int': 1}]
         elif name in ('array:get', 'array-call', 'array-lookup'):
             op['args'] = [a, index_for(a)]
         else:
@@ -312,7 +336,7 @@ def gen_case(rng, tier):
         except M.ModelError:
             continue
         for it in M.as_seq(res):
-            if M.is_item(it) and it[0] in ('map', 'array') and len(pool) < 10:
+            if M.is_item(it) and it[0] in ('map', 'array') and len(pool) < 10 and depth_of(it) <= 9:
                 pool.append((it[0], it))
     return {'config': {'mode': mode, 'groups': enabled}, 'ops': ops}
 
@@ -508,6 +532,9 @@ def run_case(case, world):
                             '%s raised %s, FOAY0001 expected' % (text, code), feats)
             continue
         got = outcome[1]
+        if expected[0] == 'ok' and depth_of(expected[1]) > 9:
+            world.probe('deep-result-not-compared')
+            continue
         observed = observe_public(got)
         world.event(('result', idx, observed))
         if expected[0] == 'error':
@@ -556,6 +583,12 @@ def run_case(case, world):
 
 def _strip_obs(c):
     return c
+
+
+def depth_of(c, d=0):
+    if d > 20 or not isinstance(c, list):
+        return d
+    return max([d] + [depth_of(x, d + 1) for x in c])
 
 
 def _flat_args(op):
